@@ -189,7 +189,10 @@ func (m *mapParallelCollection) Begin() b6.Iterator[any, any] {
 		c.in[i] = make(chan expressionPair, 1)
 		c.out[i] = make(chan expressionPair, 1)
 	}
-	go c.run()
+	// Fork the VM here, on the caller's goroutine: the caller carries on using
+	// its VM as soon as Begin() returns (for example to consume another
+	// collection), which would race with a fork made from run().
+	go c.run(m.context.Fork(m.context.Cores))
 	return c
 }
 
@@ -222,9 +225,8 @@ func (m *mapParallelCollection) ValueExpression() b6.Expression {
 	return b6.NewCallExpression(m.e, []b6.Expression{m.current.ValueExpression})
 }
 
-func (m *mapParallelCollection) run() {
+func (m *mapParallelCollection) run(contexts []*api.Context) {
 	g, c := errgroup.WithContext(m.context.Context)
-	contexts := m.context.Fork(m.context.Cores)
 	for i := range m.in {
 		in, out, context := m.in[i], m.out[i], contexts[i]
 		g.Go(func() error {
